@@ -48,7 +48,7 @@ def occurrences(pat, t):
 
 
 def model_single(t, accept):
-    pats = [s.replace('~', '\xa0').replace('\\,', ' ') for s in accept.split('|') if s]
+    pats = [s.replace('~', '\xa0').replace('\\,', '\u202f') for s in accept.split('|') if s]
     cov = set()
     for p in pats:
         for i, j in occurrences(p, t):
@@ -60,10 +60,12 @@ def model_single(t, accept):
     return res
 
 
-AL = ['a', 'b', 'I', 'x', 'ä', 'я', 'ab', '1', '_', '.', ',', ' ', ' ', '\n', '\xa0', ' ', 'e.g.', 'z.B.', '-',
-      '(', ')', 'B-B-B', 'U-U-U', ';', ':', 'a.', 'x', 'y', '2x', 'x2', 'é', 'ǅ', 'e', 'g', '\t']
+AL = ['a', 'b', 'I', 'x', 'ä', 'я', 'ab', '1', '_', '.', ',', ' ', ' ', '\n', '\xa0', '\u202f', 'e.g.', 'z.B.', 'z.\u202fB.', 'e.\u202fg.', 'z.\xa0B.', '-',
+      '(', ')', 'B-B-B', 'U-U-U', ';', ':', 'a.', 'x', 'y', '2x', 'x2', 'é', 'ǅ', 'e', 'g', '\t', 'a b c', 'x y z',
+      'm.\u202fa.\u202fW.', 'e. g. h.', 'a\xa0b\xa0x', 'c', 'W', 'z', 'h']
 ACC = ['A|a|I|e.g.|i.e.', 'a|z.~B.|x', 'a b|b c', '', 'I', 'e.g.|g', 'a.|.b', 'x~y|a', 'z.|B.', 'e.|g.', 'a||b',
-       'z.\\,B.|e.\\,g.', 'x|y|', 'ä|я', 'a b c|c', 'e.g.|e. g.']
+       'z.\\,B.|e.\\,g.', 'x|y|', 'ä|я', 'a b c|c', 'e.g.|e. g.', 'a b c|b', 'b|a b c', 'm.\\,a.\\,W.|a', 'x y z|y|z',
+       'a b|a b c|c', 'e. g. h.|g', 'a~b~x|b']
 
 
 def gen_text(rnd, n=None):
